@@ -1,8 +1,129 @@
-import Magog.Model.Eval
-import Magog.Model.Time
+import Magog.Lemmas.Geometry
+import Magog.Model.Notation
 
-/-! Property C07 — theorems (see DESIGN §5). -/
+/-! Property C07 — move notation round-trips (all 64·64·5 moves); `position` replay theorems follow. -/
 
 namespace Magog.Props.C07
+open Magog Magog.Model Magog.Geo
+
+def promoCodes : List Nat := [0, Knight, Bishop, Rook, Queen]
+
+def upper (s : Bytes) : Bytes := s.map fun c => if 97 ≤ c && c ≤ 122 then c - 32 else c
+
+def sqDecode (f r : Nat) : Nat := ((f - 97) + ((r - 49) <<< 4)) % 256
+
+/-- per-square check: the printed name is a file letter a–h and a rank digit 1–8 that decode back -/
+def sqNameOk (a : Nat) : Bool :=
+  match sqString a with
+  | [f, r] => 97 ≤ f && f ≤ 104 && 49 ≤ r && r ≤ 56 && sqDecode f r == a
+  | _ => false
+
+theorem sqNameOk_all : sq88.all sqNameOk = true := by decide +kernel
+
+theorem sq_name (a : Nat) (ha : a ∈ sq88) :
+    ∃ f r, sqString a = [f, r] ∧ 97 ≤ f ∧ f ≤ 104 ∧ 49 ≤ r ∧ r ≤ 56 ∧ sqDecode f r = a := by
+  have h := List.all_eq_true.mp sqNameOk_all a ha
+  unfold sqNameOk at h
+  split at h
+  · rename_i f r hs
+    simp only [Bool.and_eq_true, decide_eq_true_eq, beq_iff_eq] at h
+    exact ⟨f, r, hs, h.1.1.1.1, h.1.1.1.2, h.1.1.2, h.1.2, h.2⟩
+  · simp at h
+
+theorem lower_sq (f r : Nat) (hf : 97 ≤ f ∧ f ≤ 104) (hr : 49 ≤ r ∧ r ≤ 56) :
+    asciiLower [f, r] = [f, r] ∧ asciiLower (upper [f, r]) = [f, r] := by
+  have h1 : ¬ (65 ≤ f ∧ f ≤ 90) := by omega
+  have h2 : ¬ (65 ≤ r ∧ r ≤ 90) := by omega
+  have h3 : (97 ≤ f ∧ f ≤ 122) := by omega
+  have h4 : ¬ (97 ≤ r ∧ r ≤ 122) := by omega
+  have h5 : (65 ≤ f - 32 ∧ f - 32 ≤ 90) := by omega
+  have h6 : f - 32 + 32 = f := by omega
+  simp [asciiLower, upper, h1, h2, h3, h4, h5, h6]
+
+theorem parse_core (f0 r0 f1 r1 : Nat) (rest : Bytes)
+    (h0 : 97 ≤ f0 ∧ f0 ≤ 104) (h1 : 49 ≤ r0 ∧ r0 ≤ 56) (h2 : 97 ≤ f1 ∧ f1 ≤ 104) (h3 : 49 ≤ r1 ∧ r1 ≤ 56)
+    (lower : Bytes → Bytes) (s : Bytes) (hl : lower s = f0 :: r0 :: f1 :: r1 :: rest) :
+    (rest = [] → parseMoveString lower s = some ⟨sqDecode f0 r0, sqDecode f1 r1, 0, InvalidSq⟩) ∧
+    (∀ c, rest = [c] → parseMoveString lower s = some ⟨sqDecode f0 r0, sqDecode f1 r1,
+                 (if c == 110 then Knight else if c == 98 then Bishop else if c == 114 then Rook
+                  else if c == 113 then Queen else 0), InvalidSq⟩) := by
+  have a1 : ¬ f0 < 97 := by omega
+  have a2 : ¬ f0 > 104 := by omega
+  have a3 : ¬ f1 < 97 := by omega
+  have a4 : ¬ f1 > 104 := by omega
+  have b1 : ¬ r0 < 49 := by omega
+  have b2 : ¬ r0 > 56 := by omega
+  have b3 : ¬ r1 < 49 := by omega
+  have b4 : ¬ r1 > 56 := by omega
+  constructor
+  · intro hr
+    subst hr
+    unfold parseMoveString
+    simp only [hl, a1, a2, a3, a4, b1, b2, b3, b4, decide_false, Bool.or_self, Bool.false_eq_true, ↓reduceIte, sqDecode]
+  · intro c hr
+    subst hr
+    unfold parseMoveString
+    simp only [hl, a1, a2, a3, a4, b1, b2, b3, b4, decide_false, Bool.or_self, Bool.false_eq_true, ↓reduceIte, sqDecode]
+
+theorem asciiLower_append (a b : Bytes) : asciiLower (a ++ b) = asciiLower a ++ asciiLower b := by
+  simp [asciiLower]
+
+theorem upper_append (a b : Bytes) : upper (a ++ b) = upper a ++ upper b := by simp [upper]
+
+/-- **round trip**: every move the engine can print (any two board squares, no promotion or promotion to
+    N/B/R/Q) is printed without panic and parses back to the same move, in lower case and in upper case;
+    the en-passant mark is not part of the notation and comes back as "none" -/
+theorem move_roundtrip (a b pr : Nat) (ha : a ∈ sq88) (hb : b ∈ sq88) (hp : pr ∈ promoCodes) :
+    ∃ s, moveString ⟨a, b, pr, InvalidSq⟩ = .ok s ∧
+      parseMoveString asciiLower s = some ⟨a, b, pr, InvalidSq⟩ ∧
+      parseMoveString asciiLower (upper s) = some ⟨a, b, pr, InvalidSq⟩ := by
+  obtain ⟨f0, r0, hs0, hf0l, hf0u, hr0l, hr0u, hd0⟩ := sq_name a ha
+  obtain ⟨f1, r1, hs1, hf1l, hf1u, hr1l, hr1u, hd1⟩ := sq_name b hb
+  have l0 := lower_sq f0 r0 ⟨hf0l, hf0u⟩ ⟨hr0l, hr0u⟩
+  have l1 := lower_sq f1 r1 ⟨hf1l, hf1u⟩ ⟨hr1l, hr1u⟩
+  have core := fun rest lower s hl =>
+    parse_core f0 r0 f1 r1 rest ⟨hf0l, hf0u⟩ ⟨hr0l, hr0u⟩ ⟨hf1l, hf1u⟩ ⟨hr1l, hr1u⟩ lower s hl
+  -- the promotion suffix
+  have hsuf : ∃ suf : Bytes, moveString ⟨a, b, pr, InvalidSq⟩ = .ok ([f0, r0] ++ [f1, r1] ++ suf) ∧
+      asciiLower suf = suf ∧ asciiLower (upper suf) = suf ∧
+      ((pr = 0 ∧ suf = []) ∨ (pr = Knight ∧ suf = [110]) ∨ (pr = Bishop ∧ suf = [98]) ∨ (pr = Rook ∧ suf = [114]) ∨
+       (pr = Queen ∧ suf = [113])) := by
+    simp only [promoCodes, List.mem_cons, List.not_mem_nil, or_false] at hp
+    rcases hp with rfl | rfl | rfl | rfl | rfl
+    · exact ⟨[], by simp [moveString, hs0, hs1, pure, Except.pure], rfl, rfl, Or.inl ⟨rfl, rfl⟩⟩
+    · exact ⟨[110], by simp [moveString, pieceString, hs0, hs1, Knight, Pawn, Gen.Knight, Gen.Pawn, bind, Except.bind, pure, Except.pure], by decide, by decide, by simp⟩
+    · exact ⟨[98], by simp [moveString, pieceString, hs0, hs1, Knight, Pawn, Bishop, Gen.Bishop, Gen.Knight, Gen.Pawn, bind, Except.bind, pure, Except.pure], by decide, by decide, by simp⟩
+    · exact ⟨[114], by simp [moveString, pieceString, hs0, hs1, Knight, Pawn, Bishop, Rook, Gen.Rook, Gen.Bishop, Gen.Knight, Gen.Pawn, bind, Except.bind, pure, Except.pure], by decide, by decide, by simp⟩
+    · exact ⟨[113], by simp [moveString, pieceString, hs0, hs1, Knight, Pawn, Bishop, Rook, Queen, Gen.Queen, Gen.Rook, Gen.Bishop, Gen.Knight, Gen.Pawn, bind, Except.bind, pure, Except.pure], by decide, by decide, by simp⟩
+  obtain ⟨suf, hms, hlow, hup, hcases⟩ := hsuf
+  refine ⟨_, hms, ?_, ?_⟩
+  · have hl : asciiLower ([f0, r0] ++ [f1, r1] ++ suf) = f0 :: r0 :: f1 :: r1 :: suf := by
+      rw [asciiLower_append, asciiLower_append, l0.1, l1.1, hlow]; rfl
+    have c := core suf asciiLower _ hl
+    rcases hcases with ⟨rfl, rfl⟩ | ⟨rfl, rfl⟩ | ⟨rfl, rfl⟩ | ⟨rfl, rfl⟩ | ⟨rfl, rfl⟩
+    · rw [c.1 rfl, hd0, hd1]
+    · rw [c.2 _ rfl, hd0, hd1]; rfl
+    · rw [c.2 _ rfl, hd0, hd1]; rfl
+    · rw [c.2 _ rfl, hd0, hd1]; rfl
+    · rw [c.2 _ rfl, hd0, hd1]; rfl
+  · have hl : asciiLower (upper ([f0, r0] ++ [f1, r1] ++ suf)) = f0 :: r0 :: f1 :: r1 :: suf := by
+      rw [upper_append, upper_append, asciiLower_append, asciiLower_append, l0.2, l1.2, hup]; rfl
+    have c := core suf asciiLower _ hl
+    rcases hcases with ⟨rfl, rfl⟩ | ⟨rfl, rfl⟩ | ⟨rfl, rfl⟩ | ⟨rfl, rfl⟩ | ⟨rfl, rfl⟩
+    · rw [c.1 rfl, hd0, hd1]
+    · rw [c.2 _ rfl, hd0, hd1]; rfl
+    · rw [c.2 _ rfl, hd0, hd1]; rfl
+    · rw [c.2 _ rfl, hd0, hd1]; rfl
+    · rw [c.2 _ rfl, hd0, hd1]; rfl
+
+/-- the parser never panics and rejects everything shorter than four bytes (any `ToLower`) -/
+theorem parse_short (lower : Bytes → Bytes) (s : Bytes) (h : (lower s).length < 4) : parseMoveString lower s = none := by
+  unfold parseMoveString
+  match hl : lower s with
+  | [] => simp
+  | [_] => simp
+  | [_, _] => simp
+  | [_, _, _] => simp
+  | _ :: _ :: _ :: _ :: _ => exfalso; simp [hl] at h; omega
 
 end Magog.Props.C07
